@@ -70,6 +70,14 @@ Lemma back_drain_step pei_rec fuel e src z m rest rn g :
     bind (pei_rec e src) (fun _ => drain_msgq pei_rec fuel) (set_msgq rn rest) g.
 Proof. intros H. cbn. unfold bind at 1, get. rewrite H. reflexivity. Qed.
 
+(* the single-step variant: exactly the oldest stored event, the rest of the queue is left as it is *)
+Lemma back_drain_one pei_rec e src z m rest rn g :
+  msgq rn = QEv e src z m :: rest ->
+  drain_one pei_rec rn g = bind (pei_rec e src) (fun _ => ret tt) (set_msgq rn rest) g.
+Proof. intros H. unfold drain_one. unfold bind at 1, get. rewrite H. reflexivity. Qed.
+Lemma back_drain_one_empty pei_rec rn g : msgq rn = [] -> drain_one pei_rec rn g = (Some tt, rn, g).
+Proof. intros H. unfold drain_one, bind, get. rewrite H. reflexivity. Qed.
+
 Lemma back_drain_empty pei_rec fuel rn g : msgq rn = [] -> drain_msgq pei_rec fuel rn g = (Some tt, rn, g).
 Proof. intros H. destruct fuel; cbn; unfold bind, get; rewrite H; reflexivity. Qed.
 
